@@ -29,7 +29,9 @@ RULE = ("(a) registration matrix: each of AddEntityEventListener / AddEntityEven
         "kind, a duplicated kind, mixed) x registered on the parent or on the child store, next to typed and untyped "
         "constraints, against a five-transaction history (multi-operation creates, updates through both stores, a "
         "rollback after events were queued, a Batch, deletes through both stores and DeleteWhere); (b) every "
-        "one-operation body x every failure kind x Update / Batch; (c) sampled faulty bodies of 2-5 operations; "
+        "one-operation body (16 operations incl. child data created over an existing plain parent entity) x every "
+        "failure kind (incl. index-stage vetoes of custom boltz.Constraint registrations on either store and vetoes "
+        "carrying a RecordNotFoundError) x Update / Batch; (c) sampled faulty bodies of 2-5 operations; "
         "(d) random histories of 1-4 transactions with up to 5 registrations per store (listeners with 1-3 random "
         "types, constraints vetoing up to 2 random changes), reused contexts, commit / pre-commit actions, nested "
         "Update calls, swallowed vetoes. Non-trivial = a committed transaction delivered at least one callback; "
@@ -42,7 +44,7 @@ def run(ctx, replay_cases=None):
         "synchronous = on the goroutine that ran the transaction function (compared in order); asynchronous = on another goroutine (compared as a multiset after all goroutines started by the transaction have finished; order among asynchronous deliveries is not claimed)",
         "a listener callback cannot see which of its registered change types fired; deliveries are compared as (listener, rendered entity)",
         "commit actions belong to the MutateContext: a context used for a second transaction runs the actions registered during the first one again (reproduced, stated per context-and-transaction)",
-        "ids created through the child store are never created through the parent store before (C03/C15's subject)",
+        "child data may be created over an existing plain parent entity (legal since fix 8269ce9); custom index-stage constraints (boltz.Constraint via AddConstraint) only log and veto",
     ]
     return flow.run_flow(ctx, "c08", MODULE, THEOREMS, MATCHERS, nontrivial, RULE,
                          table_obligations=TABLE_OBLIGATIONS, replay_cases=replay_cases)
